@@ -180,7 +180,7 @@ Lemma ut_weights_sum : c != 0 ->
 Proof.
 move=> c0; rewrite ssumE ut_weights_mean big_cons sum_repeat.
 have h2 : (2%:R : F) != 0 by rewrite pnatr_eq0.
-rewrite -mulr_natr multE natrM mul1r invfM mulrACA mulVf // mul1r.
+rewrite -[X in _ + X]mulr_natr natrM mul1r invfM mulrACA mulVf // mul1r.
 by rewrite mulrC -mulrDl [lam + _]addrC divff.
 Qed.
 
